@@ -491,6 +491,31 @@ fn plug(t: &T, m: Option<&Vec<u8>>, with: &T) -> T {
     }
 }
 
+/// keep the leftmost hole only (put one in front if there is none)
+fn one_hole(t: &T, mk: &Vec<u8>, with: &T) -> T {
+    fn go(t: &T, mk: &Vec<u8>, with: &T, seen: &mut bool) -> T {
+        match t {
+            T::Atom(b) => {
+                if b == mk {
+                    if *seen {
+                        return with.clone();
+                    }
+                    *seen = true;
+                }
+                t.clone()
+            }
+            T::Pair(l, r) => {
+                let l2 = go(l, mk, with, seen);
+                let r2 = go(r, mk, with, seen);
+                T::pair(l2, r2)
+            }
+        }
+    }
+    let mut seen = false;
+    let r = go(t, mk, with, &mut seen);
+    if seen { r } else { T::pair(T::Atom(mk.clone()), r) }
+}
+
 /// cut a target tree into pieces: `k` disjoint sub-trees are replaced by holes, the removed sub-trees
 /// follow in pre-order (each cut again recursively) — the order in which `add` asks for them
 fn split(rng: &mut Rng, t: &T, m: &Vec<u8>, budget: &mut usize, out: &mut Vec<T>) {
@@ -573,7 +598,51 @@ pub fn random_history(rng: &mut Rng, big: bool, always_complete: bool) -> (Sent,
     let mut outs = vec![];
     let mut ok = true;
     let hole_num = rng.below(3) + 1;
-    while steps.len() < max_steps {
+    // scripted opening "an addition stops at its sentinel, is undone, and something else is added there":
+    // single-sentinel pieces over one vocabulary of long atoms, so that content of the undone and of the new
+    // addition is referenced again by what is still pending (the restore path of `UndoState` / `TreeCache`)
+    let mut scripted = false;
+    if let (7, Some(mk)) = (style, m) {
+        scripted = true;
+        let filler = T::Atom(rng.pick(&v.atoms).clone());
+        let shared = share_mode == 1;
+        let mut script: Vec<Step> = vec![];
+        let t1 = one_hole(&piece(rng, &v, m, 2, 8, 3), mk, &filler);
+        // the first addition continues after its sentinel with vocabulary content
+        script.push(Step::Add { shared, tree: T::pair(t1, piece(rng, &v, None, 0, 1, 2)) });
+        for _ in 0..rng.below(3) + 1 {
+            let k = script.iter().filter(|s| matches!(s, Step::Add { .. })).count() + 1;
+            script.push(Step::Add { shared, tree: one_hole(&piece(rng, &v, m, 2, 8, 2), mk, &filler) });
+            script.push(Step::Undo { k, oldest: rng.chance(1, 3) });
+            if rng.chance(1, 2) {
+                script.push(Step::Add { shared, tree: plug(&piece(rng, &v, None, 0, 1, 2), m, &filler) });
+                break;
+            }
+            script.push(Step::Add { shared, tree: one_hole(&piece(rng, &v, m, 1, 8, 2), mk, &filler) });
+        }
+        for s in script {
+            if ex.done {
+                break;
+            }
+            if let Step::Undo { k, .. } = &s {
+                if *k > ex.undos.len() {
+                    continue;
+                }
+            }
+            match ex.step(&s) {
+                Ok(o) => {
+                    steps.push(s);
+                    outs.push(o);
+                }
+                Err(()) => {
+                    steps.push(s);
+                    ok = false;
+                    break;
+                }
+            }
+        }
+    }
+    while !scripted && steps.len() < max_steps {
         let n = ex.trees.len();
         let can_undo = ex.undos.len();
         let s = if can_undo > 0 && rng.chance(undo_num, 10) {
